@@ -173,6 +173,15 @@ func genReq(t *rapid.T, c *Case, docs model.Corpus) Req {
 	}
 	r.Style = gen.Style(t)
 	r.Aggs = gen.AggSpecs(t, 2)
+	if c.Synth.UniqLen > 0 && rapid.Bool().Draw(t, "groupbyuniq") {
+		// a group-by field with thousands of distinct values: its part of the token table spans
+		// several blocks, and the sealed fraction turns group TIDs back into values through it
+		a := model.AggSpec{Func: rapid.SampledFrom([]string{"count", "unique", "sum", "max"}).Draw(t, "uniqfunc"), GroupBy: "uniq"}
+		if a.Func == "sum" || a.Func == "max" {
+			a.Field = "dur"
+		}
+		r.Aggs = append(r.Aggs, a)
+	}
 	if os.Getenv("C03_INCLUDE_KNOWN") == "multi-token-group-by" && rapid.Bool().Draw(t, "multi") {
 		r.Multi = &model.AggSpec{Func: "count", GroupBy: "msg"}
 	}
